@@ -125,6 +125,12 @@ def foldOut {α} : List α → (α → Out) → Out
 
 def ofResults (rs : List Result) : Out := .ok (rs.isEmpty, rs)
 
+/-- an evaluator that may raise, turned into a component outcome -/
+def liftResults (x : Except Failure (List Result)) : Out :=
+  match x with
+  | .error e => .error e
+  | .ok rs => ofResults rs
+
 /-- a python loop `for x in xs: conf, rs = f(x); non_conformant |= fails(conf, rs); reports += rs;
     if non_conformant and abort: break` — returns (non_conformant, reports) -/
 def loopE {α} (abort : Bool) (fails : Bool → List Result → Bool) (f : α → Out) :
@@ -273,9 +279,7 @@ def evalConstraint (c : Env) (rec : Rec) (s : Shape) (k : CKind) (fv : FV) (path
       | _ => ""
     -- `re.compile` fails: the harness marks such a pattern in the regex table
     if ps.any (fun p => match p with | .lit l => c.rx l.lex flags regexInvalidMarker = some true | _ => false) then .error .constraintLoad else
-    (match evalPattern s fv c.rx ps flags with
-      | .error e => .error e
-      | .ok rs => ofResults rs)
+    liftResults (evalPattern s fv c.rx ps flags)
   | .languageIn =>
     match dedup (objs (sh "languageIn")) with
     | [l] =>
@@ -296,12 +300,10 @@ def evalConstraint (c : Env) (rec : Rec) (s : Shape) (k : CKind) (fv : FV) (path
   | .disjoint => ofResults (evalDisjoint s dg fv (dedup (objs (sh "disjoint"))))
   | .lessThan =>
     if !s.isProp then .error .constraintLoad else
-    (match evalLessThan s k dg fv (dedup (objs (sh "lessThan"))) (fun r => r < 0) with
-      | .error e => .error e | .ok rs => ofResults rs)
+    liftResults (evalLessThan s k dg fv (dedup (objs (sh "lessThan"))) (fun r => r < 0))
   | .lessThanOrEquals =>
     if !s.isProp then .error .constraintLoad else
-    (match evalLessThan s k dg fv (dedup (objs (sh "lessThanOrEquals"))) (fun r => r ≤ 0) with
-      | .error e => .error e | .ok rs => ofResults rs)
+    liftResults (evalLessThan s k dg fv (dedup (objs (sh "lessThanOrEquals"))) (fun r => r ≤ 0))
   | .hasValue => ofResults (evalHasValue s fv (dedup (objs (sh "hasValue"))))
   | .inC =>
     match dedup (objs (sh "in")) with
@@ -433,9 +435,7 @@ def evalConstraint (c : Env) (rec : Rec) (s : Shape) (k : CKind) (fv : FV) (path
                 | some sols => ofResults (sparqlResults s cn msgs f sols))
       | _ => .error .constraintLoad
   | .expression =>
-    match evalExpression c.sg c.dg c.fns c.adv s fv with
-    | .error e => .error e
-    | .ok rs => ofResults rs
+    liftResults (evalExpression c.sg c.dg c.fns c.adv s fv)
 
 /-- one applicable SPARQL-based constraint component on shape `s` (`make_validator_for_shape` + `evaluate`) -/
 def evalComponent (c : Env) (s : Shape) (comp : Component) (fv : FV) : Out :=
